@@ -1,7 +1,8 @@
 #!/bin/sh
 # seedbatch.sh Cxx tag  — run every mutation under /tmp/mut/<cxx><tag>/out/m* against the check, keep in seeded/
 P=$1; T=${2:-a}; lc=$(echo $P | tr 'A-Z' 'a-z')
-for d in /tmp/mut/$lc$T/out/m*; do
+for d in /tmp/mut/$lc$T/out/m[0-9]; do
+  [ -f $d/patch.diff ] || continue
   i=$(basename $d)
   python3 /verif/tools/seedtest.py $d $P --keep $P-$T$i | python3 -c "
 import json,sys; r=json.load(sys.stdin); print('$P', '$i', 'apply', r.get('apply_rc'), 'demo', r.get('demo_clean_rc'), r.get('demo_mutated_rc'), 'check', r.get('check_rc'), '|', str(r.get('replay_failure'))[:150].replace('\n',' '))"
